@@ -41,6 +41,16 @@ class UserBase(BaseException):
     pass
 
 
+class FalsyExc(Exception):
+    """an exception OBJECT that is falsy (e.g. a collection-like error with no items)"""
+
+    def __bool__(self):
+        return False
+
+    def __len__(self):
+        return 0
+
+
 class Awaitable:
     """a legitimate return VALUE that happens to be awaitable"""
 
@@ -67,7 +77,7 @@ def make_outcome(how):
     if kind == "val":
         return ("return", {"0": 0, "0.0": 0.0, "False": False, "''": "", "[]": [], "()": (), "x": "x", "obj": object(), "1": 1, "awaitable": Awaitable()}[what])
     if kind in ("exc", "base"):
-        cls = {"LookupError": LookupError, "UserExc": UserExc, "UserExcSub": UserExcSub, "ValueError": ValueError, "RuntimeError": RuntimeError,
+        cls = {"LookupError": LookupError, "UserExc": UserExc, "UserExcSub": UserExcSub, "ValueError": ValueError, "RuntimeError": RuntimeError, "FalsyExc": FalsyExc,
                "UserBase": UserBase, "SystemExit": SystemExit, "KeyboardInterrupt": KeyboardInterrupt, "GeneratorExit": GeneratorExit}[what]
         return ("raise", cls("from payload"))
     raise ValueError(how)
@@ -260,6 +270,8 @@ class Harness:
                         return finish(r[1])
                     g["ack"].put(cmd["op"])
         payload.__name__ = payload.__qualname__ = "payload_" + pid
+        if spec.get("nomodule"):
+            payload.__module__ = None  # e.g. a function made by exec() in a bare namespace
         return payload, exp_args, exp_kwargs
 
     def command(self, pid, cmd, wait=True, timeout=1.0):
@@ -341,6 +353,28 @@ class Harness:
                 begin(args, kwargs)
                 await trio.sleep(slow)
                 return body(args, kwargs)
+        nested = spec.get("nested")
+        if nested:
+            # the executed payload itself executes another payload (of another flavour) before
+            # it ends: wrap the body
+            inner_body = body
+
+            def body(args, kwargs):  # noqa: F811
+                h.do_execute(nested, "payload:" + pid, "val:x")
+                return inner_body(args, kwargs)
+        if spec.get("unhashable"):
+            # a callable OBJECT without a hash (a dataclass instance with __call__, say)
+            fn = payload
+
+            class Callable_:
+                __hash__ = None
+
+                def __eq__(self, other):
+                    return self is other
+
+                def __call__(self, *a, **k):
+                    return fn(*a, **k)
+            payload = Callable_()
         hooks.emit("exec.call", p=pid, call=call, ctx=ctx, flavour=flavour)
         try:
             r = self.runtime.execute(payload, *exp_args, flavour=FLAVOURS[flavour], **exp_kwargs)
@@ -405,7 +439,7 @@ class Harness:
                 try:
                     self.runtime.accept()
                 except BaseException as e:  # noqa
-                    hooks.emit("accept.ret", r=rn, outcome="raised", exc=type(e).__name__, cause_p="", cause_kind="")
+                    hooks.emit("accept.ret", r=rn, **self.describe_exception(e))
                 else:
                     hooks.emit("accept.ret", r=rn, outcome="returned", exc="", cause_p="", cause_kind="")
                 self.reaccept_done.set()
@@ -536,6 +570,14 @@ class Harness:
                         hooks.emit("accept.ret", r=rn, outcome="returned", exc="", cause_p="", cause_kind="")
                 t = self.helper(acc2, "accept2")
                 t.join(op.get("timeout", 1.0))
+            elif o == "reaccept_start":
+                # the same ServiceRunner accepts again (second run); the script goes on
+                self.reaccept_go.set()
+                if not self.runtime.running.wait(3.0):
+                    hooks.emit("timeout", what="wait_running")
+            elif o == "reaccept_wait":
+                if not self.reaccept_done.wait(op.get("timeout", 4.0)):
+                    hooks.emit("timeout", what="accept", p="")
             elif o == "reaccept":
                 self.reaccept_go.set()
                 time.sleep(op.get("ms", 150) / 1000.0)
